@@ -74,6 +74,16 @@ class FlowGen(object):
 
     def arm_stmts(self, depth, need_else=False):
         r = self.r
+        if r.random() < 0.22:
+            # the arm is exactly one GOSUB (the subroutine marks and returns) - alone, or followed by more statements
+            t = Target()
+            body = []
+            self.subs.append((t, body))
+            saved = self.items
+            self.items = body
+            self.line([self.mark(), ("return",)])
+            self.items = saved
+            return ("stmts", [("gosub", t)] if r.random() < 0.6 else [("gosub", t), self.mark()])
         st = self.simple()
         if depth < 2 and r.random() < 0.3:
             st.append(self.if_stmt(depth + 1, need_else))
